@@ -17,6 +17,19 @@ HARNESSES = [L(x) for x in _q if len(x) <= 3] + [L(x, specific=True) for x in ('
 HARNESSES += [L(x, chain=True) for x in ('X1', 'aX1', 'X1X', 'XX1', 'aX1X', 'a1X1', 'aXX1', 'a1RX1X', 'sX1X')]
 HARNESSES += [L(x, conc=True) for x in ('aX', 'abX', 'aRX', 'sX', 'aaX')]
 HARNESSES += [L(x, tiers=('thorough',)) for x in _q if len(x) == 4]
+# ---- tier S: the +2 hand-off / suspension references are consumed exactly once (shared lemmas of C01/C04 + one of its own)
+from st_probes import ST_PROBES
+PRR = dict(ST_PROBES); PRR.update({'SZ_vtable': 'sizeof(struct dispatch_lane_vtable_s)', 'OFF_vt_wakeup': 'offsetof(struct dispatch_lane_vtable_s, _os_obj_vtable.dq_wakeup)', 'OFF_vt_push': 'offsetof(struct dispatch_lane_vtable_s, _os_obj_vtable.dq_push)',
+  'TRYSYNC_SUSPEND': 'DISPATCH_BARRIER_TRYSYNC_SUSPEND'})
+HARNESSES += [
+    H('S_trysync_complete_refs', 'h_refs.c', ['_dispatch_barrier_trysync_or_async_f_complete', '__dispatch_tsd', '_dispatch_lane_wakeup'], stubs=['_dispatch_bug', '_dispatch_set_basepri_override_qos', 'libdispatch_tsd_init', '_dispatch_lane_wakeup', '_dispatch_client_callout'],
+      icall_only=['_dispatch_lane_wakeup'], nt=1, heap=1024, unwind=5, probes=PRR, timeout=300, note='real _dispatch_barrier_trysync_or_async_f_complete: the suspension +2 is consumed iff no other suspension remains; a concurrent suspend injected'),
+    H('S_reader_complete_refs', '../C04/h_width.c', ['_dispatch_lane_non_barrier_complete', '__dispatch_tsd', '_dispatch_lane_push'], stubs=['_dispatch_bug', '_dispatch_set_basepri_override_qos', 'libdispatch_tsd_init', '_dispatch_release_2_tailcall', '_dispatch_retain_2', '_dispatch_lane_barrier_complete', '_dispatch_lane_push'],
+      icall_only=['_dispatch_lane_push'], nt=1, heap=1024, defines=['-DH_NBCOMPLETE'], unwind=5, probes=PRR, timeout=300, note='real _dispatch_lane_non_barrier_complete (+_finish): the re-enqueue takes its +2 unless the caller brought it (reference accounting assertion; shared with C04)'),
+    H('S_wakeup_refs', '../C01/h_state.c', ['_dispatch_queue_wakeup', '_dispatch_lane_wakeup', '__dispatch_tsd'], stubs=['_dispatch_bug', '_dispatch_set_basepri_override_qos', 'libdispatch_tsd_init', '_dispatch_queue_push_queue', '_dispatch_release_2_tailcall', '_dispatch_retain_2',
+      '_dispatch_queue_wakeup_with_override_slow', '_dispatch_lane_wakeup', '_dispatch_lane_drain_barrier_waiter', '_dispatch_workloop_drain_barrier_waiter'], icall_only=['_dispatch_lane_wakeup'], nt=1, heap=1024, defines=['-DH_WAKEUP'], unwind=5, probes=PRR, timeout=300,
+      note='real _dispatch_queue_wakeup: the +2 is taken when the caller did not bring it and consumed exactly once by the push or a release (shared with C01)'),
+]
 ASSUMPTIONS = ['tier H with real reference counting and disposal (_os_object_retain/release*, _dispatch_xref_dispose, _dispatch_dispose, _dispatch_lane_class_dispose) and the harness object table (bounds + liveness on every heap access: a use after free is an assertion failure)',
                'X = dispatch_release of the client reference, at most once per queue; the finalizer/context are set through dispatch_set_context / dispatch_set_finalizer_f, queue-specific data through dispatch_queue_set_specific',
                'object types other than queues: groups (C07 S_enter/S_notify/S_wake retain/release accounting), data (C13 lifetime harnesses); sources, semaphores and I/O channels are not covered here', 'histories are sequential (see C01 tier H)']
